@@ -315,6 +315,9 @@ pub enum Op {
     /// harness-side: `<cache>/tmp` becomes a symlink to a directory on another filesystem (a
     /// legal layout in which the temp file cannot be renamed into the content area)
     TmpElsewhere,
+    /// the user deletes the file `target_<n>` that earlier `link_to` calls linked (harness-side);
+    /// whatever the cache does later, that file does not come back
+    RemoveTarget { target: usize },
     /// two streaming writers of one process open at the same time. `plan` 0: both opened, chunks
     /// written alternately, commit a, commit b; 1: the same, commit b first; 2: a opened and
     /// written completely, b opened, a committed, b written and committed; 3: a opened, its
@@ -328,7 +331,7 @@ pub enum Op {
 
 impl Op {
     pub fn is_harness_side(&self) -> bool {
-        matches!(self, Op::DamageContent { .. } | Op::DamageBucket { .. } | Op::ForeignRecord { .. } | Op::Chdir { .. } | Op::PlantRecord { .. } | Op::TmpElsewhere)
+        matches!(self, Op::DamageContent { .. } | Op::DamageBucket { .. } | Op::ForeignRecord { .. } | Op::Chdir { .. } | Op::PlantRecord { .. } | Op::TmpElsewhere | Op::RemoveTarget { .. })
     }
     pub fn name(&self) -> &'static str {
         match self {
@@ -356,6 +359,7 @@ impl Op {
             Op::Chdir { .. } => "chdir",
             Op::PlantRecord { .. } => "plant_record",
             Op::TmpElsewhere => "tmp_elsewhere",
+            Op::RemoveTarget { .. } => "remove_target",
             Op::TwoWriters { .. } => "two_writers",
         }
     }
